@@ -34,6 +34,18 @@ package drpcconn
 //@   site (*Stream).CloseSend assert [C01.half-close] arg0 == stream && eventCount("call:(*Stream).RawWrite") == ite(len(metadata) > 0, 3, 2)
 //@   site (*Stream).MsgRecv assert [C02.response] arg0 == stream && arg1 == out && arg2 == enc && eventCount("call:(*Stream).CloseSend") == 1
 //@   check [C01.sequence] err == nil ==> eventCount("call:(*Stream).MsgRecv") == 1
+//@   ghost entry w1 = nil
+//@   ghost after:(*Stream).RawWrite#1 w1 = ret
+//@   ghost entry w2 = nil
+//@   ghost after:(*Stream).RawWrite#2 w2 = ret
+//@   ghost entry w3 = nil
+//@   ghost after:(*Stream).RawWrite#3 w3 = ret
+//@   ghost entry cs = nil
+//@   ghost after:(*Stream).CloseSend cs = ret
+//@   ghost entry mr = nil
+//@   ghost after:(*Stream).MsgRecv mr = ret
+//@   check [C01,C05.step-errors-returned] err == nil ==> w1 == nil && w2 == nil && w3 == nil && cs == nil && mr == nil
+//@   check [C01,C05.stops-at-first-error] (w1 != nil ==> err == w1 && eventCount("call:(*Stream).RawWrite") == 1) && (w2 != nil ==> err == w2) && (w3 != nil ==> err == w3 && eventCount("call:(*Stream).CloseSend") == 0) && (cs != nil ==> err == cs && eventCount("call:(*Stream).MsgRecv") == 0) && (mr != nil ==> err == mr)
 
 // doNewStream: optional metadata first, then the invoke, on the given stream.
 //@ func (*Conn).doNewStream
@@ -43,6 +55,11 @@ package drpcconn
 //@   site (*Stream).RawWrite#1 assert [C11.metadata-first] arg0 == stream && arg1 == drpcwire.KindInvokeMetadata && sameSlice(arg2, metadata) && len(metadata) > 0 && eventCount("call:(*Stream).RawWrite") == 0
 //@   site (*Stream).RawWrite#2 assert [C01.invoke]  arg0 == stream && arg1 == drpcwire.KindInvoke && len(arg2) == len(rpc) && eventCount("call:(*Stream).RawWrite") == ite(len(metadata) > 0, 1, 0)
 //@   check [C01.sequence] result == nil ==> eventCount("call:(*Stream).RawWrite") == ite(len(metadata) > 0, 2, 1)
+//@   ghost entry w1 = nil
+//@   ghost after:(*Stream).RawWrite#1 w1 = ret
+//@   ghost entry w2 = nil
+//@   ghost after:(*Stream).RawWrite#2 w2 = ret
+//@   check [C01,C05.step-errors-returned] (result == nil ==> w1 == nil && w2 == nil) && (w1 != nil ==> result == w1 && eventCount("call:(*Stream).RawWrite") == 1) && (w2 != nil ==> result == w2)
 
 // Invoke: the request is marshalled into the shared buffer and sent while the conn's mutex is held,
 // on the stream the manager just created for this call, which is closed on every path; metadata
@@ -64,6 +81,10 @@ package drpcconn
 //@   site (*Conn).doInvoke assert [C11.metadata-passed] mdset ==> arg5 == mdenc
 //@   site (*Conn).doInvoke assert [C11.no-metadata] !mdset ==> len(arg5) == 0
 //@   site (*Conn).doInvoke assert [C11.private-metadata] arr(arg5) == 0 || fresh(arg5)
+//@   ghost entry derr = nil
+//@   ghost after:(*Conn).doInvoke derr = ret
+//@   check [C01.completes-or-fails] err == nil ==> eventCount("call:(*Conn).doInvoke") == 1 && derr == nil && nerr == nil
+//@   check [C01.new-stream-error] eventCount("call:(*Manager).NewClientStream") == 1 && nerr != nil ==> err == nerr
 //@   check [C02.stream-closed] eventCount("call:(*Manager).NewClientStream") == 1 && nerr == nil ==> eventCount("call:(*Stream).Close") == 1
 
 // NewStream: like Invoke without a request; on a failing setup the stream is closed.
@@ -85,3 +106,5 @@ package drpcconn
 //@   site (*Conn).doNewStream assert [C11.metadata-passed] (mdset ==> arg3 == mdenc) && (!mdset ==> len(arg3) == 0)
 //@   site (*Conn).doNewStream assert [C11.private-metadata] arr(arg3) == 0 || fresh(arg3)
 //@   check [C02.closed-on-error] serr != nil ==> eventCount("call:(*Stream).Close") == 1 && err != nil
+//@   check [C01.completes-or-fails] err == nil ==> eventCount("call:(*Conn).doNewStream") == 1 && serr == nil && nerr == nil && strm != nil && eventCount("call:(*Stream).Close") == 0
+//@   check [C01.new-stream-error] eventCount("call:(*Manager).NewClientStream") == 1 && nerr != nil ==> err == nerr
